@@ -519,7 +519,19 @@ pub fn c07(args: &[String]) {
                     }
                     _ => {
                         // a mapped guard keeps the lock
-                        let m = assets_manager::AssetReadGuard::map(g, |b| &b.words[100..400]);
+                        // map, or try_map through its Err path (which hands the guard back) and then its Ok path
+                        let m = if n % 2 == 0 {
+                            assets_manager::AssetReadGuard::map(g, |b| &b.words[100..400])
+                        } else {
+                            let back = match assets_manager::AssetReadGuard::try_map(g, |_b| None::<&[u64]>) {
+                                Ok(_) => unreachable!(),
+                                Err(g) => g,
+                            };
+                            match assets_manager::AssetReadGuard::try_map(back, |b| Some(&b.words[100..400])) {
+                                Ok(m) => m,
+                                Err(_) => unreachable!(),
+                            }
+                        };
                         std::thread::sleep(std::time::Duration::from_micros(rng.gen_range(50..600)));
                         let r = uniform(&m);
                         let rid2 = crate::front::rid_of(h.last_reload_id());
